@@ -400,6 +400,38 @@ def failing_calls():
     ]
 
 
+class _TimeLimit:
+    """A failing call is given 3 s (a changed library may loop on the invalid arguments); only usable in a main thread."""
+
+    class Expired(BaseException):
+        pass
+
+    def __init__(self, seconds):
+        self.seconds = seconds
+        self.armed = False
+
+    def __enter__(self):
+        import signal
+        import threading
+
+        if threading.current_thread() is threading.main_thread():
+            def on_alarm(signum, frame):
+                raise _TimeLimit.Expired()
+
+            self.old = signal.signal(signal.SIGALRM, on_alarm)
+            signal.setitimer(signal.ITIMER_REAL, self.seconds)
+            self.armed = True
+        return self
+
+    def __exit__(self, *exc):
+        import signal
+
+        if self.armed:
+            signal.setitimer(signal.ITIMER_REAL, 0)
+            signal.signal(signal.SIGALRM, self.old)
+        return False
+
+
 def check_after_failures(acc, prop):
     """Every operation of the property's menu right after every failing call (on the same object), and after all of them in a row:
     the result must be what it was before anything failed (module-level scratch state must not survive an exception)."""
@@ -421,7 +453,11 @@ def check_after_failures(acc, prop):
                 raised = None
                 for one_label, one in (fails if ffn is None else [(fl, ffn)]):
                     try:
-                        one(f)
+                        with _TimeLimit(3.0):
+                            one(f)
+                    except _TimeLimit.Expired:
+                        raised = "did not return within 3 s"
+                        acc.add("failing_calls_that_did_not_return")
                     except BaseException as ex:  # noqa
                         raised = type(ex).__name__
                 case = {"value": {"characters": sum(len(t) for t, _ in spec), "first_runs": shown}, "failed_call_before": fl, "it_raised": raised, "op": label}
